@@ -108,10 +108,11 @@ def find_fn(text, fn_name, impl_header=None, start=0):
     impl block whose header matches impl_header, if given)."""
     lo, hi = start, len(text)
     if impl_header:
-        m = re.search(r"^[ \t]*" + re.escape(impl_header).replace(r"\ ", r"\s+") + r"\b[^\n;]*\{", text[start:], re.M)
+        wb = r"\b" if re.match(r"\w", impl_header[-1]) else ""
+        m = re.search(r"^[ \t]*" + re.escape(impl_header).replace(r"\ ", r"\s+") + wb + r"[^\n;]*\{", text[start:], re.M)
         if not m:
             # header may span lines (where clauses)
-            m = re.search(r"^[ \t]*" + re.escape(impl_header).replace(r"\ ", r"\s+") + r"\b", text[start:], re.M)
+            m = re.search(r"^[ \t]*" + re.escape(impl_header).replace(r"\ ", r"\s+") + wb, text[start:], re.M)
             if not m:
                 raise Undecided("anchor lost: impl header %r" % impl_header)
             ob = text.find("{", start + m.end())
@@ -123,9 +124,23 @@ def find_fn(text, fn_name, impl_header=None, start=0):
     if not m:
         raise Undecided("anchor lost: fn %s in %r" % (fn_name, impl_header))
     ls = lo + m.start()
-    ob = text.find("{", lo + m.end())
-    semi = text.find(";", lo + m.end())
-    if ob < 0 or (0 <= semi < ob):
+    # the body is the first `{` outside (), [] ; a `;` outside them first means a declaration
+    depth = 0
+    ob = -1
+    i = lo + m.end()
+    while i < len(text):
+        c = text[i]
+        if c in "([":
+            depth += 1
+        elif c in ")]":
+            depth -= 1
+        elif c == ";" and depth == 0:
+            raise Undecided("fn %s has no body" % fn_name)
+        elif c == "{" and depth == 0:
+            ob = i
+            break
+        i += 1
+    if ob < 0:
         raise Undecided("fn %s has no body" % fn_name)
     cb = find_matching_brace(text, ob)
     return ls, ob, cb
